@@ -9,7 +9,9 @@ Model driver for C12 (node retirement controller).
                      `VIOLATION <signature> <text>` out (the monitor of `Spec/C12`)
 
 Op lines (a case starts with `reset`):
-  reset k=<kind,kind,...>     kinds: raw | nok | nno | nnl | dead  (empty list: no hosted service)
+  reset k=<kind,kind,...> [stop=later|inline1|inline0]
+                              kinds: raw | nok | nno | nnl | dead  (empty list: no hosted service);
+                              stop: the INodeApp completes StopNode later (op stopdone) / inside the call with true / false
   cmd <name>                  stat | retire | exit | web_nodes | web_retire | web_exit | anything else
   qack i=<idx> res=<text>     scripted service s<idx> answers its pending queryretire with <text>
   retired i=<idx>|ghost       ctrl.servicecmd {s<idx>, retired}; idx beyond the set / ghost: unknown name
@@ -29,6 +31,12 @@ def parseKinds (ws : List String) : List Kind :=
   | none => []
   | some "" => []
   | some v => (v.splitOn ",").map parseKind
+
+def parseMode (ws : List String) : StopMode :=
+  match kv ws "stop" with
+  | some "inline1" => .inlineOk
+  | some "inline0" => .inlineFail
+  | _ => .later
 
 def parseCmd : String → Cmd
   | "stat" => .stat | "retire" => .retire | "exit" => .exit | "web_nodes" => .webNodes
@@ -79,7 +87,7 @@ def step (d : DSt) (line : String) : DSt × String :=
   match ws.head? with
   | some "reset" =>
     let kinds := parseKinds ws
-    let b := boot true kinds
+    let b := boot true kinds (parseMode ws)
     ({ kinds := kinds, st := some b.1, held := kinds.map (· == Kind.raw) }, showObs kinds "-" b.2 b.1)
   | some h =>
     match d.st with
@@ -169,7 +177,7 @@ def specStep (m : Option Mon) (line : String) : Option Mon × String :=
           | some sig => "VIOLATION " ++ sig ++ " " ++ op ++ " => " ++ obs)
       match ws.head?, m with
       | some "reset", _ =>
-        let res := Mon.reset (parseKinds ws) o
+        let res := Mon.reset (parseKinds ws) o (Cell2v.Spec.C12.inlineOf (parseMode ws))
         (some res.1, match res.2 with
           | none => "ok"
           | some sig => "VIOLATION " ++ sig ++ " " ++ op ++ " => " ++ obs)
